@@ -515,6 +515,9 @@ def parse_function(hdr, body):
     return f
 
 
+SOURCE_CONSTS = {}      # NAME -> (type, value): integer-literal constants of the crate (filled by scan_source_types)
+
+
 # ---------------------------------------------------------------- type layout from the crate's source (variant / field order)
 
 def scan_source_types(repo_src):
@@ -547,6 +550,15 @@ def scan_source_types(repo_src):
                     if mm:
                         fs.append(mm.group(1))
                 structs.setdefault(m.group(1), fs)
+    consts = {}
+    for root, _, files in os.walk(repo_src):
+        for fn in files:
+            if fn.endswith(".rs"):
+                txt = re.sub(r"//[^\n]*", "", open(os.path.join(root, fn)).read())
+                for m in re.finditer(r"\bconst\s+([A-Z][A-Z0-9_]*)\s*:\s*([iu](?:8|16|32|64|size))\s*=\s*([0-9_]+)\s*;", txt):
+                    consts.setdefault(m.group(1), (m.group(2), int(m.group(3).replace("_", ""))))
+    SOURCE_CONSTS.clear()
+    SOURCE_CONSTS.update(consts)
     enums.setdefault("Option", ["None", "Some"])
     enums.setdefault("Result", ["Ok", "Err"])
     enums.setdefault("ControlFlow", ["Continue", "Break"])
